@@ -325,6 +325,12 @@ func (u *UntrustedInputChecker) OnVisitNodeLeave(n ExprNode) {
 	case *IndexAccessNode:
 		if lit, ok := n.Index.(*StringNode); ok {
 			// Special case like github['event']['issue']['title']. Property names are case insensitive.
+			if lit.Value == "*" {
+				// "*" is used for matching to any element of arrays in UntrustedInputMap. ['*'] is a normal
+				// property access and no input has the property
+				u.end()
+				break
+			}
 			u.onPropAccess(strings.ToLower(lit.Value))
 			break
 		}
